@@ -96,7 +96,10 @@ def run_episode(spec, uid="E"):
             return reals[a]
 
         for n, it in enumerate(spec["items"]):
-            path = os.path.join(tmp, f"d{n}.puml")
+            # the file system is part of the session state: a few paths are rewritten over and over, so every parse
+            # after the first few reads a path that held a different diagram before (a result must be a function
+            # of the file's current content, not of what was parsed from that path earlier)
+            path = os.path.join(tmp, f"d{n % spec.get('paths', 3)}.puml")
             if it["op"] == "parse":
                 text = render(it["lines"], it.get("tags", True), it.get("pre", ""), it.get("post", ""))
                 with open(path, "w") as f:
